@@ -192,6 +192,8 @@ fn parse_case(src: &str, stream: &str) -> Option<Case> {
     };
     if imp.starts_with("(ok") && model_declines_tree(&imp) { return None; }
     c.req = format!("parse-program {}", sx::q(src));
+    // classification of a known defect when the two parses differ (ranges nested in the lower bound of a range)
+    if imp.starts_with("(ok") && src.matches("..").count() >= 2 { c.oracle = format!("check-parse {} {}", sx::q(src), imp); }
     c.tags.extend(["parse-program".to_string(), format!("parse-program:{}", stream), if imp.starts_with("(ok") { "program-accepted".into() } else { "program-rejected".into() }]);
     for (k, t) in [("(cvar ", "pp:compound-var"), ("(access ", "pp:array-access"), ("(block ", "pp:block-fn"), ("(scoped ", "pp:scoped-fn"), ("(it ", "pp:iteration"),
                    ("(prim ", "pp:array"), ("(str ", "pp:string"), ("(cv ", "pp:compound-decl"), ("(tuple ", "pp:tuple-iteration"), ("(intrange ", "pp:integer-range"),
@@ -360,6 +362,23 @@ pub fn generate(seed: u64, n: usize, thorough: bool, corpus: Option<&str>) -> Ve
     for names in [["_u", "$v", "w1"], ["__a", "$_b", "c_1"], ["\\x_1", "x_2", "y_a_b"], ["and_x", "min_1", "x__2"], ["A", "Bc", "d9"]] {
         push(program(&format!("min {} + {}", names[0], names[1]), &[format!("{} - {} >= {}", names[0], names[1], names[2]), format!("{}", names[2])], &names, "Boolean"), "names", &mut cases);
         for nm in names { push(program(&format!("min {}", nm), &[format!("{} >= 1", nm)], &[nm], "Real"), "names", &mut cases); }
+    }
+
+    // --- printer edges: `range(a, b, <bool>)` calls outside an iterator, arrays that mix integer and decimal entries,
+    //     decimal / string indexes of compound variables, nested ranges in the lower bound of a range
+    for (i, e) in ["len(range(0, 3, false))", "len(range(1, n, true)) + 1", "sum(i in union(range(0, 2, false), range(5, 7, true))) { i }",
+                   "len(zip(range(0, 2, false), range(0, 2, false)))", "sum(i in range(0, 3, false)) { i }", "sum(i in range(0, n, true), j in 0..i) { j }",
+                   "x_{1.5}", "x_{0.5}_i + x_{2.0}", "x_{\"a\"} + 1", "x_{1}_{2} + x_{n + 1}", "sum(i in sum(j in 0..2) { j }..5) { i }",
+                   "sum(i in min { sum(j in 0..n) { j }, 1 }..=n) { i }"].iter().enumerate() {
+        push(format!("min {}\ns.t.\n    y >= 1\nwhere\n    let n = 2\n    let i = 0\ndefine\n    y as Real\n", e), "printer-edges", &mut cases);
+        push(format!("min y\ns.t.\n    c{}: y >= {}\nwhere\n    let n = 2\n    let i = 0\ndefine\n    y as Real\n", i, e), "printer-edges", &mut cases);
+    }
+    for a in ["[1, 2.5, 3]", "[1.0, 2]", "[1, true]", "[\"a\", 1]", "[1, 2.0]", "[0.5, 1, 2]", "[[1, 2.5], [3, 4]]", "[true, 1.5]", "[1, [2]]"] {
+        push(format!("min y\ns.t.\n    y >= len(c)\nwhere\n    let c = {}\ndefine\n    y as Real\n", a), "printer-edges", &mut cases);
+        push(format!("min y + len({})\ns.t.\n    y >= 1\ndefine\n    y as Real\n", a), "printer-edges", &mut cases);
+    }
+    for d in ["let r = range(0, 3, false)", "let r = range(0, 3, true)", "let r = union(range(0, 2, false), [5, 6])"] {
+        push(format!("min y\ns.t.\n    y >= len(r)\n    y >= sum(i in r) {{ i }}\nwhere\n    {}\ndefine\n    y as Real\n", d), "printer-edges", &mut cases);
     }
 
     // --- random programs over the expression sub-language (random spelling, parentheses, spacing)
